@@ -60,6 +60,10 @@ def run(ctx):
     life.replay(ctx, "life", behs, env={"VERIF_WRITES": "1"})
     # ... and under trace logging (log level and console level both raised; the writes of a patch and of its removal must be the same 13 bytes whatever is logged)
     life.replay(ctx, "life", behs, env={"VERIF_WRITES": "1", "VERIF_LOG": "trace", "VERIF_QUIET": "1"})
+    # function LITERALS as targets: the entry jump must land on the literal's own first byte (image alphabet, writes observed)
+    lb = life.gen(ctx, dict(one, T='{"f", "g"}'), 2 if q else 3, "image alphabet over function literals")
+    from lib.replay import replay_family as _rf
+    _rf(ctx, "life-literal", lb, env={"VERIF_WRITES": "1"}, classify=life.classify)
     # the patch layer itself (internal/patch: Patch / Guard.Apply / Unpatch / Restore / Unpatch(target) / UnpatchAll), spec Patch.tla
     from lib.replay import replay_family
     for disc in ("FALSE", "TRUE"):
